@@ -424,6 +424,8 @@ def select_jobs(prop, tier, only):
     if os.environ.get("VERIF_THOROUGH_ONLY"):
         # maintenance aid: only the obligations that the quick tier does not already run
         sel = [j for j in jobs if j.tier != "q"]
+    if os.environ.get("VERIF_SKIP_DEEPENING"):
+        sel = [j for j in sel if j.core]
     if only:
         sel = [j for j in sel if any(o in j.id for o in only)]
     return sel
